@@ -13,6 +13,7 @@ import traceback
 
 VERIF = os.path.dirname(os.path.dirname(os.path.abspath(__file__)))
 REPO = os.path.abspath(os.environ.get("VERIF_REPO", "/repo"))
+OUT = os.path.abspath(os.environ.get("VERIF_OUT", VERIF))     # where evidence/ and replays/ are written
 
 try:
     sys.set_int_max_str_digits(0)
@@ -257,7 +258,7 @@ def fails_with(prop, case, bucket):
 
 
 def write_replay(prop, tier, seed, bucket, case, detail):
-    d = os.path.join(VERIF, "replays", prop.ID)
+    d = os.path.join(OUT, "replays", prop.ID)
     os.makedirs(d, exist_ok=True)
     body = {"property": prop.ID, "tier": tier, "seed": seed, "bucket": list(bucket),
             "case": case, "observed": detail}
@@ -265,7 +266,7 @@ def write_replay(prop, tier, seed, bucket, case, detail):
     path = os.path.join(d, name)
     with open(path, "w") as f:
         json.dump(body, f, indent=1)
-    return os.path.relpath(path, VERIF)
+    return os.path.relpath(path, VERIF) if OUT == VERIF else path
 
 
 def replay_corpus(prop, acc):
@@ -426,8 +427,8 @@ def main_check(pid, tier, seed, replay=None):
         ev["coverage"]["hypothesis_version"] = hypothesis.__version__
     except Exception:
         pass
-    os.makedirs(os.path.join(VERIF, "evidence"), exist_ok=True)
-    with open(os.path.join(VERIF, "evidence", prop.ID + ".json"), "w") as f:
+    os.makedirs(os.path.join(OUT, "evidence"), exist_ok=True)
+    with open(os.path.join(OUT, "evidence", prop.ID + ".json"), "w") as f:
         json.dump(ev, f, indent=1, sort_keys=False)
         f.write("\n")
 
